@@ -2,6 +2,7 @@
 import PsutilModel.Base.Proto
 import PsutilModel.Model.C07Gen
 import PsutilModel.Spec.C07
+import PsutilModel.Spec.C07Ext
 open Lean Psutil Psutil.Proto Psutil.C07
 
 structure DSt where
@@ -143,12 +144,58 @@ def handle (d : DSt) (j : Json) : R (DSt × Json) := do
     let data ← bytesF j "data"
     let e : Env := ⟨cfg, vlen, tck⟩
     let nf := e.fields.length
+    -- the specification for ANY bytes (Spec.lineOutcome / linesOutcome: which exception, exactly when) and
+    -- whether every converted token is in one of the two CLAIMED classes (digit string or foreign)
+    let snf := Spec.nfOf vlen
+    let cpuLines := ((linesOf data).drop 1).filter (startsWith [99, 112, 117])
+    let claimedLine (l : Bytes) : Bool :=
+      (Spec.counterToks snf (splitWs l)).all fun t => Spec.isDigitTok t || Spec.isForeignTok t
     return (d, jObj [("model", jObj [("sys", jPRes jRats (cpuTimes cfg nf tck data)),
-                                     ("per", jPRes (jList jRats) (perCpuTimes cfg nf tck data))])])
+                                     ("per", jPRes (jList jRats) (perCpuTimes cfg nf tck data))]),
+                     ("spec", jObj [("sys", jPRes jRats (Spec.lineOutcome tck snf (splitWs (firstLine data)))),
+                                    ("per", jPRes (jList jRats) (Spec.linesOutcome tck snf cpuLines))]),
+                     ("claimed", jObj [("sys", Json.bool (claimedLine (firstLine data))),
+                                       ("per", Json.bool (cpuLines.all claimedLine))])])
+  if op == "percpul" then
+    -- two kernel states whose `cpuN` lines carry their own numbers (offline CPUs are not printed): rendered by
+    -- the Lean renderer, read by a thread's first `cpu_percent(percpu=True)` / `cpu_times(percpu=True)`
+    let vlen ← natF j "vlen"
+    let tck ← natF j "tck"
+    let ncols ← natF j "ncols"
+    let parseW (jw : Json) : R Spec.ProcStatL := do
+      let total ← field jw "total" >>= parseTicks
+      let cpus ← listF (fun e => do
+        match e.getArr? with
+        | .ok #[n, t] => do pure ((← asNat n), (← parseTicks t))
+        | _ => .error "cpus entry must be [number, ticks]") jw "cpus"
+      let other ← listF asBytes jw "other"
+      pure ⟨total, cpus, other⟩
+    let w1 ← field j "w1" >>= parseW
+    let w2 ← field j "w2" >>= parseW
+    let d1 := Spec.renderProcStatL ncols w1
+    let d2 := Spec.renderProcStatL ncols w2
+    let e : Env := ⟨cfg, vlen, tck⟩
+    let nf := e.fields.length
+    let snf := Spec.nfOf vlen
+    let c : Call := ⟨.percent, 1, none, true, [d1, d2]⟩
+    let out := (step e St.init c).2
+    let tm (w : Spec.ProcStatL) := w.cpus.map fun p => (p.1, Spec.Times.ofTicks tck p.2)
+    let byPos := Spec.perCpuPercent snf ((tm w1).map Prod.snd) ((tm w2).map Prod.snd)
+    let byNum := Spec.perCpuByNumber snf (tm w1) (tm w2)
+    return (d, jObj [
+      ("data1", jBytes d1), ("data2", jBytes d2),
+      ("times", jObj [("model", jPRes (jList jRats) (perCpuTimes cfg nf tck d2)),
+                      ("spec", jPRes (jList jRats) (.ok (w2.cpus.map fun p => Spec.seconds tck snf p.2)))]),
+      ("model", jOut out),
+      ("by_position", jRats byPos), ("by_number", jRats byNum),
+      ("exact", jRats (List.zipWith (Spec.percentExact snf) ((tm w1).map Prod.snd) ((tm w2).map Prod.snd))),
+      ("same_online", Json.bool (w1.cpus.map Prod.fst == w2.cpus.map Prod.fst))])
   if op == "tokens" then
     -- which of these tokens are in the kernel's `%llu` grammar (Spec.isKernelTok), and their values
     let toks ← listF asBytes j "toks"
     return (d, jObj [("grammar", jList (fun t => Json.bool (Spec.isKernelTok t)) toks),
+                     ("digit", jList (fun t => Json.bool (Spec.isDigitTok t)) toks),
+                     ("foreign", jList (fun t => Json.bool (Spec.isForeignTok t)) toks),
                      ("value", jList (fun t => match parseDec? t with
                                                | some n => jNat n
                                                | none => Json.null) toks)])
